@@ -26,6 +26,7 @@ type Job struct {
 	MaxPaths  int
 	Tag       string // free: used by the property post-processing
 	NoPanic   bool   // do not turn implicit-panic obligations into results
+	KeepPaths bool   // keep path conditions and observations (translator validation)
 	BudgetS   int    // wall-clock budget of this job in seconds (0 = the check's budget)
 	Alias     bool   // solver-backed alias resolution of memory reads (multi-Step harnesses)
 }
@@ -61,6 +62,7 @@ type JobResult struct {
 	GlobalR    map[string]bool
 	LoopFuncs  map[string]bool
 	Wall       time.Duration
+	PathData   []PathResult
 	MaxTrace   int
 	Notes      []string
 	Err        string
@@ -236,6 +238,9 @@ func (r *Runner) runJob(job Job, st *Store, sol *Solver) (jr JobResult) {
 			if v, _, _ := sol.Check(e.pcs, nil); v == Sat || len(e.pcs) == 0 {
 				jr.Witness++
 			}
+		}
+		if job.KeepPaths {
+			jr.PathData = append(jr.PathData, pr)
 		}
 		jr.Obls = append(jr.Obls, r.discharge(job, e, pr, pid)...)
 	}
